@@ -174,6 +174,8 @@ struct Failure {
     who: usize,
     item: String,
     detail: serde_json::Value,
+    /// authz: every single-rule relaxation that reproduces the implementation's matrix
+    alts: Vec<String>,
 }
 
 #[derive(Default)]
@@ -248,18 +250,17 @@ async fn eval_config(
             // root cause: the single model rule whose removal reproduces the
             // implementation's whole matrix for this Principal (else the first
             // one that flips the first wrong cell, marked "~").
-            let mut label = None;
+            let mut alts: Vec<String> = Vec::new();
             for (name, x) in GovModel::relaxations() {
                 let same = cells.iter().all(|(perm, mres, imp)| match cfg.model.decide_relaxed(who, strength, perm, mres, &x) {
                     Dec::GateUnspecified => true,
                     d => d.allowed() == *imp,
                 });
                 if same {
-                    label = Some(name);
-                    break;
+                    alts.push(name);
                 }
             }
-            let label = label.unwrap_or_else(|| {
+            let label = alts.first().cloned().unwrap_or_else(|| {
                 let (perm, mres, _) = cells[wrong[0]];
                 GovModel::relaxations()
                     .into_iter()
@@ -276,8 +277,10 @@ async fn eval_config(
                 item: format!("{perm} on {}", if mres.is_space() { "the Space".to_string() } else if mres.key.is_empty() { format!("{mres:?}") } else { mres.key.clone() }),
                 detail: json!({
                     "model": "deny", "implementation": "allow", "resource": mres,
+                    "rules_whose_removal_reproduces_the_implementation": alts,
                     "all_disagreements": wrong.iter().map(|i| format!("{} on {}", cells[*i].0, if cells[*i].1.is_space() { "Space" } else if cells[*i].1.key.is_empty() { "synthetic" } else { cells[*i].1.key.as_str() })).collect::<Vec<_>>(),
                 }),
+                alts: alts.clone(),
             });
         }
 
@@ -302,6 +305,7 @@ async fn eval_config(
                             who,
                             item: format!("read {}", POP[i].key),
                             detail: json!({"model": "every matching allow carries the field mask", "implementation": "no mask"}),
+                            alts: vec![],
                         });
                     }
                 } else {
@@ -314,7 +318,11 @@ async fn eval_config(
         if proper {
             tally.nontrivial.push(util::fnv64(format!("{}|{who}", cfg.model.canonical()).as_bytes()));
         }
-        let whole = matches!(cfg.model.decide(who, strength, "read", &Res::space()), Dec::Allow { open: true, .. });
+        let whole = match cfg.model.decide(who, strength, "read", &Res::space()) {
+            Dec::Allow { open, .. } => Some(open),
+            Dec::Deny => Some(false),
+            Dec::GateUnspecified => None,
+        };
 
         // --- battery -----------------------------------------------------------
         let expected = clones.get(&readable, &masked).await;
@@ -374,14 +382,17 @@ async fn eval_config(
                         let mut want = expected[index].main.clone();
                         let mut got = actual.main.clone();
                         let withheld = got["result"]["contents"].get("withheld").is_some();
-                        if !whole {
-                            if !withheld {
+                        match whole {
+                            Some(true) if !withheld => {}
+                            Some(false) if !withheld => {
                                 fail = Some(("differs", json!({"model": "Space-wide counts are withheld from a narrower Principal"})));
                             }
-                            want["result"]["contents"] = json!(null);
-                            got["result"]["contents"] = json!(null);
+                            _ => {
+                                want["result"]["contents"] = json!(null);
+                                got["result"]["contents"] = json!(null);
+                            }
                         }
-                        if fail.is_none() && !(withheld && whole) && want != got {
+                        if fail.is_none() && want != got {
                             fail = Some(("differs", json!({})));
                         }
                     }
@@ -416,7 +427,7 @@ async fn eval_config(
                 if only.is_some() {
                     detail["raw_response"] = json!(raw);
                 }
-                tally.failures.push(Failure { kind, family, config: config.to_vec(), who, item: item.label.to_string(), detail });
+                tally.failures.push(Failure { kind, family, config: config.to_vec(), who, item: item.label.to_string(), detail, alts: vec![] });
             } else if proper && tally.samples.len() < 3 && item.label == "all-concepts" && !is_denial {
                 tally.samples.push(json!({
                     "config": config.iter().map(|a| a.name()).collect::<Vec<_>>(), "principal": format!("p{who}"),
@@ -630,6 +641,31 @@ fn main() {
 
     // one violation per (kind, family[, cause]); the replay is the shortest
     // (then lexicographically first) failing configuration of the group.
+    // decision disagreements: name each by the rule that explains the most
+    // cases (greedy cover), so one root cause is one signature
+    {
+        let mut open: Vec<usize> = (0..totals.failures.len()).filter(|i| totals.failures[*i].kind == "authz" && !totals.failures[*i].alts.is_empty()).collect();
+        while !open.is_empty() {
+            let mut count: BTreeMap<&str, usize> = BTreeMap::new();
+            for i in &open {
+                for a in &totals.failures[*i].alts {
+                    *count.entry(a.as_str()).or_default() += 1;
+                }
+            }
+            let order: Vec<String> = GovModel::relaxations().into_iter().map(|(n, _)| n).collect();
+            let best = count
+                .iter()
+                .max_by_key(|(name, n)| (**n, std::cmp::Reverse(order.iter().position(|o| o == *name).unwrap_or(usize::MAX))))
+                .map(|(name, _)| name.to_string())
+                .unwrap();
+            for i in open.clone() {
+                if totals.failures[i].alts.contains(&best) {
+                    totals.failures[i].family = best.clone();
+                }
+            }
+            open.retain(|i| !totals.failures[*i].alts.contains(&best));
+        }
+    }
     let mut groups: BTreeMap<(String, String), Vec<&Failure>> = BTreeMap::new();
     for f in &totals.failures {
         groups.entry((f.kind.to_string(), f.family.clone())).or_default().push(f);
